@@ -295,6 +295,95 @@ def check(ctx, rep):
                     rep.bad("R-EQ", "R-EQ:" + key, where("partial_cmp"), "Q3: %s::partial_cmp orders by %s but cmp orders by %s: the partial order can contradict the total order" % (short, k1n, k2n))
             else:
                 rep.ok("R-EQ", key, where("partial_cmp"), "Q3: Ord is derived over the same fields")
+        # Q3b every comparison looks at one value per side: an operand computed from both self and other (a conversion of one
+        # into the other's unit, a difference, ...) makes partial_cmp / eq / cmp observe something the sibling impls do not
+        for m in ("eq", "cmp", "partial_cmp"):
+            if m not in hand:
+                continue
+            hb = hand[m]
+            mixed = []
+
+            def is_mixed(b3, o):
+                v = G.describe(b3, o)
+                # the result of a comparison (an Ordering / bool that is then matched or chained) legitimately depends on both values
+                w = v
+                while w.kind in ("discr", "unop") and w.args:
+                    w = w.args[0]
+                if w.kind == "call" and (CMP_CALL.search(w.v) or w.v.endswith("::eq") or w.v.endswith("::ne") or w.v.endswith("Ordering::then") or w.v.endswith("Ordering::then_with")):
+                    return None
+                if w.kind == "binop" and w.v in ("Eq", "Ne", "Lt", "Le", "Gt", "Ge", "BitAnd", "BitOr"):
+                    return None
+                r = repr(v)
+                return r[:90] if (re.search(r"\b_1\b", r) and re.search(r"\b_2\b", r)) else None
+            bodies = [hb] + [prog.bodies[c] for c in prog.closures_of.get(hb.id, [])]
+            ncmp = 0
+            for b2 in bodies:
+                if b2.rec["kind"] == "Closure":
+                    continue
+                for bi2 in b2.rpo():
+                    blk = b2.blocks[bi2]
+                    for st in blk["stmts"]:
+                        if st["k"] == "assign" and st["rv"]["k"] == "binop" and st["rv"]["op"] in ("Eq", "Ne", "Lt", "Le", "Gt", "Ge"):
+                            ncmp += 1
+                            for o in (st["rv"]["a"], st["rv"]["b"]):
+                                r = is_mixed(b2, o)
+                                if r:
+                                    mixed.append(r)
+                    t = blk["term"]
+                    if t["k"] == "call":
+                        nm = strip_generics(mir.callee_name(t) or "?")
+                        if CMP_CALL.search(nm) or nm.endswith("::eq") or nm.endswith("::ne"):
+                            ncmp += 1
+                            for o in t["args"]:
+                                r = is_mixed(b2, o)
+                                if r:
+                                    mixed.append(r)
+            key = "%s:Q3b:%s:one-value-per-side" % (short, m)
+            if mixed:
+                rep.bad("R-EQ", "R-EQ:" + key, where(m), "Q3: %s::%s compares %s, a quantity computed from both values: its answer is not a function of the fields the sibling impls compare" % (short, m, mixed[0]))
+            elif ncmp:
+                rep.ok("R-EQ", key, where(m), "Q3: each of the %d comparisons has one value per side" % ncmp)
+        # Q3c eq / cmp / partial_cmp only observe: the crate functions they call are the comparison / hash / deref impls of the parts
+        # and one-argument accessors; a call that computes a new quantity from parts of both values (a unit conversion, say) makes
+        # this impl answer a different question than its siblings
+        for m in ("eq", "cmp", "partial_cmp"):
+            if m not in hand:
+                continue
+            hb = hand[m]
+            odd = []
+            for b2 in [hb] + [prog.bodies[c] for c in prog.closures_of.get(hb.id, [])]:
+                for bi2, t in b2.calls():
+                    nm = strip_generics(mir.callee_name(t) or "")
+                    if not (nm.startswith("haystack::") or nm.startswith("<haystack::")):
+                        continue
+                    if re.search(r" as std::(cmp::(PartialEq|Eq|PartialOrd|Ord)|hash::Hash|ops::Deref|convert::AsRef|borrow::Borrow|clone::Clone)>::", nm):
+                        continue
+                    if len(t["args"]) <= 1:
+                        continue
+                    odd.append((b2, bi2, nm))
+            key = "%s:Q3c:%s:observes-only" % (short, m)
+            if odd:
+                rep.bad("R-EQ", "R-EQ:" + key, odd[0][0].where(odd[0][1]), "Q3: %s::%s calls %s: it compares a computed quantity, not the fields the sibling impls compare, so it can contradict them" % (short, m, odd[0][2]))
+            else:
+                rep.ok("R-EQ", key, where(m), "Q3: only comparison / hash / deref impls and unary accessors are called")
+        # Q6 a total order is not patched together from a partial one: inside a hand-written cmp, partial_cmp is only applied to
+        # floats (None only for NaN, which the property excludes); on any other type None means 'incomparable', not Equal
+        if "cmp" in hand:
+            hb = hand["cmp"]
+            badp = []
+            for b2 in [hb] + [prog.bodies[c] for c in prog.closures_of.get(hb.id, [])]:
+                for bi2, t in b2.calls():
+                    c = callee_of(t)
+                    nm = strip_generics((c.get("res") or c["fn"]) if c else "")
+                    if nm.endswith("::partial_cmp"):
+                        targs = [x for x in (c.get("targs", []) if c else []) if not x.startswith("'")]
+                        if not (nm.startswith("core::cmp::impls::<impl std::cmp::PartialOrd for f64>") or nm.startswith("core::cmp::impls::<impl std::cmp::PartialOrd for f32>") or (targs and targs[0] in ("f64", "f32"))):
+                            badp.append((b2, bi2, nm))
+            key = "%s:Q6:cmp-not-from-partial_cmp" % short
+            if badp:
+                rep.bad("R-EQ", "R-EQ:" + key, badp[0][0].where(badp[0][1]), "Q6: %s::cmp is built on %s: where the partial order has no answer (Numbers of different units) the total order invents one, so cmp says Equal for values that are not equal" % (short, badp[0][2].split("<")[0] + "partial_cmp"))
+            else:
+                rep.ok("R-EQ", key, where("cmp"), "Q6: cmp does not go through a partial order of a non-float type")
         # Q4 hand-written partial_cmp without Ord (Unit): nothing to compare against
         for m in hand:
             rep.ok("R-EQ", "%s:footprint:%s" % (short, m), where(m), "reads %s via %d operations" % (sorted(fs[m]), len(ops[m])))
